@@ -197,37 +197,37 @@ Section IntOps.
   Definition le_val (x y : Z) : Prop := (ival sg w x <= ival sg w y)%Z.
   Definition ge_val (x y : Z) : Prop := (ival sg w y <= ival sg w x)%Z.
 
-  Lemma le_val_refl x : okv x -> le_val x x. Proof. unfold le_val. lia. Qed.
+  Lemma le_val_refl x : okv x -> le_val x x. Proof. clear - w sg. unfold le_val. lia. Qed.
   Lemma le_val_trans x y z : okv x -> okv y -> okv z -> le_val x y -> le_val y z -> le_val x z.
-  Proof. unfold le_val. lia. Qed.
-  Lemma ge_val_refl x : okv x -> ge_val x x. Proof. unfold ge_val. lia. Qed.
+  Proof. clear - w sg. unfold le_val. lia. Qed.
+  Lemma ge_val_refl x : okv x -> ge_val x x. Proof. clear - w sg. unfold ge_val. lia. Qed.
   Lemma ge_val_trans x y z : okv x -> okv y -> okv z -> ge_val x y -> ge_val y z -> ge_val x z.
-  Proof. unfold ge_val. lia. Qed.
+  Proof. clear - w sg. unfold ge_val. lia. Qed.
 
   Lemma max_selecting : selecting okv le_val (i_max sg w).
-  Proof.
+  Proof. clear - Hw.
     intros x y Hx Hy. destruct (RegArith.i_max_spec sg w x y Hx Hy Hw) as [E S].
     split; [exact S|]. unfold le_val. rewrite E. lia.
   Qed.
   Lemma min_selecting : selecting okv ge_val (i_min sg w).
-  Proof.
+  Proof. clear - Hw.
     intros x y Hx Hy. destruct (RegArith.i_min_spec sg w x y Hx Hy Hw) as [E S].
     split; [exact S|]. unfold ge_val. rewrite E. lia.
   Qed.
 
   Lemma okv_MIN : okv (i_MIN sg w).
-  Proof.
+  Proof. clear - Hw.
     unfold in_range, i_MIN. pose proof (RegArith.pow2_split w Hw). pose proof (RegArith.pow2_pos (w - 1) ltac:(lia)).
     destruct sg; lia.
   Qed.
   Lemma okv_MAX : okv (i_MAX sg w).
-  Proof.
+  Proof. clear - Hw.
     unfold in_range, i_MAX. pose proof (RegArith.pow2_split w Hw). pose proof (RegArith.pow2_pos (w - 1) ltac:(lia)).
     destruct sg; lia.
   Qed.
 
   Lemma fold_max_attains k l : In (fold_right Z.max k l) (k :: l) /\ (forall z, In z (k :: l) -> (z <= fold_right Z.max k l)%Z).
-  Proof.
+  Proof. clear - w sg.
     induction l as [|x l [IH1 IH2]]; cbn [fold_right].
     - split; [left; reflexivity|]. intros z [<-|[]]. lia.
     - split.
@@ -240,7 +240,7 @@ Section IntOps.
         * specialize (IH2 z ltac:(right; exact Hz)). lia.
   Qed.
   Lemma fold_min_attains k l : In (fold_right Z.min k l) (k :: l) /\ (forall z, In z (k :: l) -> (fold_right Z.min k l <= z)%Z).
-  Proof.
+  Proof. clear - w sg.
     induction l as [|x l [IH1 IH2]]; cbn [fold_right].
     - split; [left; reflexivity|]. intros z [<-|[]]. lia.
     - split.
@@ -259,7 +259,7 @@ Section IntOps.
     In (ival sg w v) (ival sg w e :: map (ival sg w) x) ->
     (forall z, In z (e :: x) -> le z v) ->
     Refines okv le [v] (e :: x).
-  Proof.
+  Proof. clear - Hw.
     intros He Hv Fx Hin Hdom. repeat split.
     - constructor; auto.
     - constructor; auto.
@@ -277,7 +277,7 @@ Section IntOps.
                 /\ forall z, In z (i_MIN sg w :: a) -> (ival sg w z <= ival sg w r)%Z
     | _ => False
     end.
-  Proof.
+  Proof. clear Hr.
     unfold generic_max_horizontal, max_to_register.
     apply (horiz_extreme okv le_val le_val_refl le_val_trans R HL Mth (r_max R) (r_max_dense R)
                          (r_max_to_value R) (i_max sg w) (i_max sg w) (i_MIN sg w) okv_MIN
@@ -299,7 +299,7 @@ Section IntOps.
                 /\ forall z, In z (i_MAX sg w :: a) -> (ival sg w r <= ival sg w z)%Z
     | _ => False
     end.
-  Proof.
+  Proof. clear Hr.
     unfold generic_min_horizontal, min_to_register.
     apply (horiz_extreme okv ge_val ge_val_refl ge_val_trans R HL Mth (r_min R) (r_min_dense R)
                          (r_min_to_value R) (i_min sg w) (i_min sg w) (i_MAX sg w) okv_MAX
